@@ -5,35 +5,6 @@ Open Scope N_scope.
 
 Definition write_limits := {| lim_blob := 65536; lim_string := 65536; lim_python := 255; lim_count := 255 |}.
 
-(* values without the three known holes of the writers: text is ASCII (len() counts characters), no None for an
-   AllowNone dict (typing already forces fixed arrays to have their declared length) *)
-Definition ascii_only (b : bytes) : bool := forallb (fun x => b2n x <? 128) b.
-Fixpoint plain (t : dtype) (v : value) {struct t} : Prop :=
-  match t with
-  | TString => match v with VStr b => ascii_only b = true | _ => True end
-  | TArray e _ => match v with
-                  | VList _ l => (fix all (l : list value) : Prop := match l with [] => True | x :: r => plain e x /\ all r end) l
-                  | _ => True end
-  | TDict fs _ => match v with
-                  | VNone => False
-                  | VDict _ kvs => (fix go (fl : list (string * dtype)) (kvs : list (string * value)) : Prop :=
-                                      match fl, kvs with
-                                      | (_, t') :: fl', (_, v') :: kvs' => plain t' v' /\ go fl' kvs'
-                                      | _, _ => True end) fs kvs
-                  | _ => True end
-  | TUser inner => plain inner v
-  | _ => True
-  end.
-
-Lemma ascii_charcount b : ascii_only b = true -> charcount b = len b.
-Proof.
-  unfold charcount, len, ascii_only. intros H. f_equal. f_equal.
-  induction b as [|x r IH]; [reflexivity|]. cbn [forallb] in H. apply andb_true_iff in H as [Hx Hr].
-  cbn [filter]. apply N.ltb_lt in Hx.
-  assert (Hc : cont x = false).
-  { unfold cont. replace (128 <=? b2n x) with false by (symmetry; apply N.leb_gt; exact Hx). reflexivity. }
-  rewrite Hc. cbn [negb]. now rewrite (IH Hr).
-Qed.
 Lemma write_len_packed n : n < 65536 -> write_len n = Ok (enc_packed n).
 Proof.
   intros H. unfold write_len, enc_packed. destruct (n <? 255); [reflexivity|].
@@ -60,10 +31,10 @@ Proof.
 Qed.
 
 Theorem lib_write_is_wire_encode : forall t hdr v,
-  writable t = true -> wf_keys t -> has_type write_limits t v -> plain t v ->
+  writable t = true -> wf_keys t -> has_type write_limits t v ->
   lib_write hdr t v = Ok (wire_encode hdr t v).
 Proof.
-  induction t as [w|w| | |n| | | | |e sz IH|fs an IH|t IH] using dtype_ind'; intros hdr v Hw Hk Ht Hp; cbn [writable] in Hw; try discriminate Hw.
+  induction t as [w|w| | |n| | | | |e sz IH|fs an IH|t IH] using dtype_ind'; intros hdr v Hw Hk Ht; cbn [writable] in Hw; try discriminate Hw.
   - (* UInt *) destruct v; try contradiction. cbn [has_type] in Ht. cbn [lib_write wire_encode].
     destruct Ht as [H0 H1]. replace (0 <=? z)%Z with true by (symmetry; apply Z.leb_le; exact H0).
     replace (z <? 256 ^ Z.of_nat w)%Z with true by (symmetry; apply Z.ltb_lt; exact H1). reflexivity.
@@ -74,25 +45,26 @@ Proof.
   - destruct v; try contradiction. cbn [has_type] in Ht. cbn [lib_write wire_encode]. now rewrite Ht.
   - destruct v; try contradiction. cbn [has_type] in Ht. cbn [lib_write wire_encode]. now rewrite Ht, Nat.eqb_refl.
   - (* String *) destruct v; try contradiction; cbn [has_type] in Ht; destruct Ht as [Hl Hu]; cbn [lib_write wire_encode].
-    + cbn [plain] in Hp. rewrite (ascii_charcount _ Hp). rewrite write_len_packed by exact Hl. reflexivity.
+    + rewrite write_len_packed by exact Hl. reflexivity.
     + rewrite write_len_packed by exact Hl. reflexivity.
   - (* Blob *) destruct v; try contradiction. cbn [has_type] in Ht. cbn [lib_write wire_encode]. rewrite write_len_packed by exact Ht. reflexivity.
   - (* Mailbox *) destruct v; try contradiction. cbn [has_type] in Ht. destruct Ht as [Hip Hport]. cbn [lib_write wire_encode].
     rewrite Hip. cbn [Nat.eqb]. replace (port <? 65536) with true by (symmetry; apply N.ltb_lt; exact Hport). reflexivity.
   - (* Array *) destruct v as [| | | | | | |e' l| |]; try contradiction. cbn [has_type] in Ht. destruct Ht as (-> & Hsz & Hall).
-    cbn [plain] in Hp. cbn [wf_keys] in Hk. cbn [lib_write wire_encode].
+    cbn [wf_keys] in Hk. cbn [lib_write wire_encode].
     set (go := fix go (l : list value) : result bytes :=
         match l with [] => Ok [] | x :: r => a <- lib_write hdr e x ;; b <- go r ;; Ok (a ++ b) end).
     set (body := (fix go (l : list value) : bytes := match l with [] => [] | x :: r => wire_encode hdr e x ++ go r end) l).
     assert (Hgo : go l = Ok body).
-    { subst body. clear Hsz. induction l as [|x l IHl]; [reflexivity|]. destruct Hall as [Hx Hl]. destruct Hp as [Px Pl].
-      cbn [go]. fold go. rewrite (IH hdr x Hw Hk Hx Px). cbn [bind]. rewrite (IHl Hl Pl). reflexivity. }
-    destruct sz as [n|]; [exact Hgo|].
+    { subst body. clear Hsz. induction l as [|x l IHl]; [reflexivity|]. destruct Hall as [Hx Hl].
+      cbn [go]. fold go. rewrite (IH hdr x Hw Hk Hx). cbn [bind]. rewrite (IHl Hl). reflexivity. }
+    destruct sz as [n|]; [rewrite Hsz, Nat.eqb_refl; exact Hgo|].
     cbn [lim_count write_limits] in Hsz.
     replace (len_list l <? 256) with true by (symmetry; apply N.ltb_lt; lia). rewrite Hgo. cbn [bind].
     unfold enc_packed. replace (len_list l <? 255) with true by (symmetry; apply N.ltb_lt; exact Hsz). reflexivity.
-  - (* Dict *) destruct v as [| | | | | | | |fs' kvs|]; cbn [has_type] in Ht; try contradiction.
-    destruct Ht as [-> Hty]. cbn [plain] in Hp. cbn [wf_keys] in Hk. destruct Hk as [Hd Hkk]. cbn [lib_write wire_encode].
+  - (* Dict *) destruct v as [| | | | | | | |fs' kvs|]; cbn [has_type] in Ht; try contradiction;
+      [|subst an; reflexivity].
+    destruct Ht as [-> Hty]. cbn [wf_keys] in Hk. destruct Hk as [Hd Hkk]. cbn [lib_write wire_encode].
     set (go := fix go (fl : list (string * dtype)) : result bytes :=
         match fl with
         | [] => Ok []
@@ -106,7 +78,7 @@ Proof.
         | _, _ => []
         end).
     assert (G : forall fl kvs' pre, kvs = pre ++ kvs' -> (forall k, In k (map fst fl) -> ~ In k (map fst pre)) ->
-                keys_distinct fl -> Forall (fun kt => forall hdr v, writable (snd kt) = true -> wf_keys (snd kt) -> has_type write_limits (snd kt) v -> plain (snd kt) v ->
+                keys_distinct fl -> Forall (fun kt => forall hdr v, writable (snd kt) = true -> wf_keys (snd kt) -> has_type write_limits (snd kt) v ->
                                                lib_write hdr (snd kt) v = Ok (wire_encode hdr (snd kt) v)) fl ->
                 (fix go (fl : list (string * dtype)) : bool := match fl with [] => true | (_, t') :: r => writable t' && go r end) fl = true ->
                 (fix go (fl : list (string * dtype)) : Prop := match fl with [] => True | (_, t') :: r => wf_keys t' /\ go r end) fl ->
@@ -115,29 +87,25 @@ Proof.
                    | [], [] => True
                    | (k, t') :: fl', (k', v') :: kvs' => k = k' /\ has_type write_limits t' v' /\ go fl' kvs'
                    | _, _ => False end) fl kvs' ->
-                (fix go (fl : list (string * dtype)) (kvs : list (string * value)) : Prop :=
-                   match fl, kvs with
-                   | (_, t') :: fl', (_, v') :: kvs' => plain t' v' /\ go fl' kvs'
-                   | _, _ => True end) fl kvs' ->
                 go fl = Ok (enc fl kvs')).
-    { clear Hd Hkk Hty Hp Hw IH. induction fl as [|[k t'] fl IHfl]; intros kvs' pre Epre Hdis Hdist HIH Hwr Hwk Hty Hpl.
+    { clear Hd Hkk Hty Hw IH. induction fl as [|[k t'] fl IHfl]; intros kvs' pre Epre Hdis Hdist HIH Hwr Hwk Hty.
       - destruct kvs'; [reflexivity|contradiction].
-      - destruct kvs' as [|[k' v'] kvs'']; [contradiction|]. destruct Hty as (<- & Hv & Hrest). destruct Hpl as [Pv Prest].
+      - destruct kvs' as [|[k' v'] kvs'']; [contradiction|]. destruct Hty as (<- & Hv & Hrest).
         cbn [go enc]. fold go. fold enc. rewrite Epre.
         rewrite assoc_get_app_skip by (apply Hdis; now left). cbn [assoc_get]. rewrite String.eqb_refl.
         inversion HIH as [|? ? Hk1 HIH']; subst. cbn [snd] in Hk1. apply andb_true_iff in Hwr as [Hw1 Hw2]. destruct Hwk as [Wk1 Wk2].
         destruct Hdist as [Hnot Hdist'].
-        rewrite (Hk1 hdr v' Hw1 Wk1 Hv Pv). cbn [bind].
+        rewrite (Hk1 hdr v' Hw1 Wk1 Hv). cbn [bind].
         assert (E2 : pre ++ (k, v') :: kvs'' = (pre ++ [(k, v')]) ++ kvs'') by (rewrite <- app_assoc; reflexivity).
         assert (D2 : forall k0, In k0 (map fst fl) -> ~ In k0 (map fst (pre ++ [(k, v')]))).
         { intros k0 Hin Hin2. rewrite map_app in Hin2. apply in_app_or in Hin2 as [Hin2|[<-|[]]].
           - apply (Hdis k0); [now right|exact Hin2].
           - apply Hnot. exact Hin. }
-        rewrite (IHfl kvs'' (pre ++ [(k, v')]) E2 D2 Hdist' HIH' Hw2 Wk2 Hrest Prest). reflexivity. }
-    assert (IH' : Forall (fun kt => forall hdr v, writable (snd kt) = true -> wf_keys (snd kt) -> has_type write_limits (snd kt) v -> plain (snd kt) v ->
+        rewrite (IHfl kvs'' (pre ++ [(k, v')]) E2 D2 Hdist' HIH' Hw2 Wk2 Hrest). reflexivity. }
+    assert (IH' : Forall (fun kt => forall hdr v, writable (snd kt) = true -> wf_keys (snd kt) -> has_type write_limits (snd kt) v ->
                                     lib_write hdr (snd kt) v = Ok (wire_encode hdr (snd kt) v)) fs).
-    { eapply Forall_impl; [|exact IH]. cbn. intros kt Hkt hdr0 v0 H1 H2 H3 H4. now apply Hkt. }
-    rewrite (G fs kvs [] eq_refl (fun _ _ H => H) Hd IH' Hw Hkk Hty Hp). reflexivity.
+    { eapply Forall_impl; [|exact IH]. cbn. intros kt Hkt hdr0 v0 H1 H2 H3. now apply Hkt. }
+    rewrite (G fs kvs [] eq_refl (fun _ _ H => H) Hd IH' Hw Hkk Hty). reflexivity.
 Qed.
 
 (* hence: what the library writes, its own reader reads back exactly, consuming exactly what was written *)
@@ -164,10 +132,10 @@ Proof.
   - cbn [has_type] in *. now apply IH.
 Qed.
 Theorem lib_write_read t hdr v bs rest :
-  writable t = true -> wf_keys t -> has_type write_limits t v -> plain t v ->
+  writable t = true -> wf_keys t -> has_type write_limits t v ->
   lib_write hdr t v = Ok bs -> decode hdr t (bs ++ rest) = Ok (v, rest).
 Proof.
-  intros Hw Hk Ht Hp H. rewrite (lib_write_is_wire_encode t hdr v Hw Hk Ht Hp) in H. inversion H; subst.
+  intros Hw Hk Ht H. rewrite (lib_write_is_wire_encode t hdr v Hw Hk Ht) in H. inversion H; subst.
   apply decode_wire_encode_partial. now apply has_type_mono.
 Qed.
 
@@ -188,15 +156,15 @@ Qed.
 Theorem refused_arg_count hdr ts vs : length ts <> length vs -> write_args hdr ts vs = Err ERuntime.
 Proof. intros H. unfold write_args. destruct (Nat.eqb_spec (length ts) (length vs)); [contradiction|reflexivity]. Qed.
 
-(* REFUTATIONS of the full statement ("every value"): the three holes, as witnesses *)
-Example refuted_none_for_allownone :
-  lib_write 1 (TDict [("a"%string, TUInt 1)] true) VNone = Err EType /\ wire_encode 1 (TDict [("a"%string, TUInt 1)] true) VNone = [x00].
+(* the three former holes (repaired in /repo, recorded as fixed: C16-a/b/c), now as theorems *)
+Theorem none_for_allownone fs hdr : lib_write hdr (TDict fs true) VNone = Ok [x00] /\ decode hdr (TDict fs true) [x00] = Ok (VNone, []).
 Proof. split; reflexivity. Qed.
-Example refuted_non_ascii_text :   (* "é" = c3 a9: length written 1, two bytes follow *)
-  exists bs, lib_write 1 TString (VStr [xc3; xa9]) = Ok bs /\ decode 1 TString (bs ++ []) <> Ok (VStr [xc3; xa9], []).
-Proof. eexists. split; [reflexivity|]. vm_compute. discriminate. Qed.
-Example refuted_fixed_array_length :   (* ARRAY<of>UINT8</of><size>3</size> given two elements: written, nothing refused *)
-  lib_write 1 (TArray (TUInt 1) (Some 3%nat)) (VList (TUInt 1) [VInt 1; VInt 2]) = Ok [x01; x02].
+Theorem none_refused_without_allownone fs hdr : lib_write hdr (TDict fs false) VNone = Err EType.
 Proof. reflexivity. Qed.
+Example non_ascii_text_roundtrip :   (* "é" = c3 a9: length 2 is written, two bytes follow *)
+  lib_write 1 TString (VStr [xc3; xa9]) = Ok [x02; xc3; xa9] /\ decode 1 TString [x02; xc3; xa9] = Ok (VStr [xc3; xa9], []).
+Proof. split; vm_compute; reflexivity. Qed.
+Theorem refused_fixed_array_length e n et l hdr : length l <> n -> lib_write hdr (TArray e (Some n)) (VList et l) = Err EValue.
+Proof. intros H. cbn [lib_write]. destruct (Nat.eqb_spec (length l) n); [contradiction | reflexivity]. Qed.
 Print Assumptions lib_write_is_wire_encode.
 Print Assumptions lib_write_read.
